@@ -37,6 +37,7 @@ type Rec struct {
 	known    []string
 	exhaust  bool
 	notes    []string
+	keys     map[string]bool
 }
 
 func NewRec(t testing.TB, prop, rule string) *Rec {
@@ -162,6 +163,28 @@ func (r *Rec) FailEnum(t *testing.T, check string, c interface{}, err error) {
 		os.WriteFile(p, b, 0o644)
 		t.Errorf("%s: %v", check, err)
 	}
+}
+
+// FailEnumKey is FailEnum with de-duplication by root-cause key (e.g. panic message + top
+// engine frame): one saved case per key, at most 40 keys, so that one shallow defect does not
+// hide the others behind it.
+func (r *Rec) FailEnumKey(t *testing.T, check, key string, c interface{}, err error) {
+	r.mu.Lock()
+	if r.keys == nil {
+		r.keys = map[string]bool{}
+	}
+	dup := r.keys[key]
+	r.keys[key] = true
+	n := len(r.keys)
+	r.failed = true
+	r.mu.Unlock()
+	if dup || n > 40 {
+		return
+	}
+	p := filepath.Join(outDir(), fmt.Sprintf("fail-%s-%d-k%d.json", sanitize(r.Test), shard(), n))
+	b, _ := json.MarshalIndent(failFile{r.Prop, check, r.Test, err.Error(), c}, "", " ")
+	os.WriteFile(p, b, 0o644)
+	t.Errorf("%s: %v", check, err)
 }
 
 func sanitize(s string) string {
